@@ -69,6 +69,7 @@ func ruleC12(r *Report) {
 	checkEscape(r, p, "C12.escape", func(fn *ssa.Function) bool {
 		return fn.Signature.Recv() != nil && (isMethodOf(fn, "AuthnRequest") || isMethodOf(fn, "LogoutRequest") || isMethodOf(fn, "LogoutResponse")) || isElementSerialiser(p, fn)
 	})
+	safely(r, func() { checkNoCDATA(r, p, "C12.escape") })
 	checkFormBuffers(r, p)
 	safely(r, func() { checkEndpointGetters(r, p, "C12.endpoint") })
 	r.Rule("C12.idp-decode", "the IdP's request decoder refuses a request only for its HTTP method or a failing decoding step (base64, inflate, form parsing) — not for the relay state, a length or a header", 1)
@@ -77,6 +78,24 @@ func ruleC12(r *Report) {
 	// (C05.accept), run here on behalf of this property
 	r.Rule("C12.idp-accepts", "a fresh 2.0 request from a registered SP naming the SSO URL (or no Destination) whose ACS is found is not rejected by IdpAuthnRequest.Validate, signed or not (the accept scenarios of C05, borrowed)", 1)
 	borrowAccept(r, "C12.idp-accepts")
+	// "the message the IdP reads is the message the SP built": the Element() builders of the messages the SP sends emit
+	// each field as it is, under the name its reader uses (the writer/reader rules of C07, run on behalf of this property)
+	r.Rule("C12.emit", "the Element() builders of AuthnRequest, LogoutRequest, LogoutResponse, ArtifactResolve and their parts (Issuer, NameIDPolicy, NameID, RequestedAuthnContext, Status) emit every field as the field itself or through its fixed formatter, under the names their readers use (C07.schema/verbatim/coverage restricted to these types)", 50)
+	sent := []string{"AuthnRequest", "LogoutRequest", "LogoutResponse", "ArtifactResolve", "Issuer", "NameIDPolicy", "NameID", "RequestedAuthnContext", "Status", "StatusCode", "SessionIndex"}
+	old := r.remap
+	r.remap = func(o *Obligation) (string, bool) {
+		if !strings.HasPrefix(o.Rule, "C07.") {
+			return o.Rule, true
+		}
+		for _, t := range sent {
+			if strings.HasPrefix(o.Construct, t+":") || strings.HasPrefix(o.Construct, t+".") || strings.HasPrefix(o.Construct, t+" ") {
+				return "C12.emit", true
+			}
+		}
+		return "", false
+	}
+	safely(r, func() { checkBuilders(r, p) })
+	r.remap = old
 }
 
 // borrowAccept runs the C05 rule family with only its accept scenarios kept, renamed to rule.
@@ -913,6 +932,38 @@ func serialisationOf(p *Prog, v ssa.Value) (ssa.Value, *ssa.Call, string) {
 		return c.Call.Args[info.docParam], c, shortFn(info.fn) + " (Document.WriteToBytes of its argument)"
 	}
 	return nil, nil, ""
+}
+
+// checkNoCDATA: the trees the Element() builders of the root package make consist of elements, attributes and plain
+// character data only. A CDATA section is written literally by the (canonical) serialiser that the signature digests,
+// and read back by every parser as ordinary text, whose canonical form escapes it: the digest of what the peer parsed
+// is not the digest that was signed, although both sides see the same string.
+func checkNoCDATA(r *Report, p *Prog, rule string) {
+	var roots []*ssa.Function
+	for _, fn := range p.modFns {
+		if p.InLibrary(fn) && fn.Pkg != nil && fn.Pkg.Pkg.Path() == modPath && fn.Signature.Recv() != nil && fn.Name() == "Element" {
+			roots = append(roots, fn)
+		}
+	}
+	bad := ""
+	for fn := range p.ReachableModuleOnly("vta", roots...) {
+		if !p.InLibrary(fn) {
+			continue
+		}
+		for _, b := range fn.Blocks {
+			for _, in := range b.Instrs {
+				c, ok := in.(ssa.CallInstruction)
+				if !ok || c.Common().StaticCallee() == nil {
+					continue
+				}
+				sc := c.Common().StaticCallee()
+				if sc.Pkg != nil && sc.Pkg.Pkg.Path() == etreePath && strings.Contains(sc.Name(), "CData") {
+					bad = firstNonEmpty(bad, p.FnName(fn)+" calls "+sc.Name()+" at "+p.InstrPos(in))
+				}
+			}
+		}
+	}
+	r.Check(len(roots) >= 10 && bad == "", rule, "the Element() builders create no CDATA section", "-", fmt.Sprintf("%d Element() methods and the helpers they reach call no etree CDATA constructor", len(roots)), "a built tree can contain a CDATA section ("+bad+"): the serialiser writes it literally, the peer's parser reads plain text, and an enveloped signature over the tree no longer verifies on what was parsed")
 }
 
 // checkEscape: every serialisation in the selected functions (a) uses a document whose WriteSettings have CanonicalText
